@@ -12,6 +12,7 @@ import (
 	"time"
 
 	"github.com/robertkrimen/otto/ast"
+	"github.com/robertkrimen/otto/file"
 	"github.com/robertkrimen/otto/parser"
 
 	"verif/harness/internal/core"
@@ -26,6 +27,11 @@ type Line struct {
 	Exp json.RawMessage   `json:"exp"`
 	Dev []json.RawMessage `json:"dev"`
 	Bug string            `json:"bug"`
+	// Pos: where an error must be reported (family utf8 of spec/C04.tla), by the line/column rule of the specification
+	Pos *struct {
+		Line int `json:"line"`
+		Col  int `json:"col"`
+	} `json:"pos,omitempty"`
 }
 
 // Outcome is what the parser did with a source text.
@@ -41,7 +47,10 @@ type Outcome struct {
 var Mutant string
 
 // Parse runs parser.ParseFile under recover and a watchdog.
-func Parse(src string, mode parser.Mode) Outcome {
+func Parse(src string, mode parser.Mode) Outcome { return ParseFS(nil, src, mode) }
+
+// ParseFS is Parse with a file set (nil: stand-alone, base 1).
+func ParseFS(fs *file.FileSet, src string, mode parser.Mode) Outcome {
 	ch := make(chan Outcome, 1)
 	go func() {
 		var out Outcome
@@ -51,7 +60,7 @@ func Parse(src string, mode parser.Mode) Outcome {
 			}
 			ch <- out
 		}()
-		prog, err := parser.ParseFile(nil, "", src, mode)
+		prog, err := parser.ParseFile(fs, "", src, mode)
 		if err != nil {
 			out = Outcome{C: "reject", Prog: []any{}, Msg: err.Error(), Err: err, Tree: prog}
 			return
@@ -283,7 +292,7 @@ func MutCfg(c *core.Ctx, fams []string, nsel int) string {
 		core.TLASet(c.Findings.OpenIDs()), core.TLASet(fams), nsel, c.Seed%1000)
 }
 
-var allFams = []string{"e1", "e2", "e3", "prim", "stmt", "nest", "seq", "lit", "key", "lex"}
+var allFams = []string{"e1", "e2", "e3", "prim", "stmt", "nest", "seq", "lit", "key", "long", "rw", "lex"}
 
 // Check is the C03 property check.
 func Check(c *core.Ctx) (map[string]any, []string, error) {
